@@ -32,6 +32,11 @@ Proof. exact svc_conformant_pf. Qed.
 Theorem start_conformant : forall c, Forall (fun m => conformant m = true) (run_top error_json c TStart).
 Proof. exact start_conformant_pf. Qed.
 
+(* a request delivered without a reply subject is dropped: no handler runs, nothing is published
+   (in particular nothing on the empty subject) *)
+Theorem no_reply_subject_dropped : forall c r d, rreply r = [] -> run_request error_json c r d = [].
+Proof. exact no_reply_subject_dropped_pf. Qed.
+
 (* a reply whose value cannot be marshalled (OK / Model / Collection value, Error data) yields exactly
    one message: a conformant system.internalError response *)
 Theorem unmarshalable_becomes_internal_error : forall c r st k,
